@@ -5,7 +5,6 @@ import (
 	"go/token"
 	"go/types"
 	"sort"
-	"strings"
 
 	"golang.org/x/tools/go/cfg"
 )
@@ -199,6 +198,43 @@ func Implied(conds []CondEdge, at Atomizer, named []string, required func(val ma
 	return true
 }
 
+// Sufficient: for all valuations, premise => (all conds have their truth).  Unknown leaves are
+// free atoms, so a condition that depends on one is not implied.
+func Sufficient(conds []CondEdge, at Atomizer, named []string, premise func(val map[string]bool) bool) bool {
+	set := map[string]bool{}
+	for _, n := range named {
+		set[n] = true
+	}
+	for _, ce := range conds {
+		for _, a := range CondAtoms(ce.Cond, at) {
+			set[a] = true
+		}
+	}
+	var atoms []string
+	for a := range set {
+		atoms = append(atoms, a)
+	}
+	sort.Strings(atoms)
+	if len(atoms) > 18 {
+		return false
+	}
+	val := map[string]bool{}
+	for m := 0; m < 1<<len(atoms); m++ {
+		for i, a := range atoms {
+			val[a] = m&(1<<i) != 0
+		}
+		if !premise(val) {
+			continue
+		}
+		for _, ce := range conds {
+			if EvalCond(ce.Cond, at, val) != ce.Truth {
+				return false
+			}
+		}
+	}
+	return true
+}
+
 // Equivalent: for all valuations, expr <=> required.
 func Equivalent(expr ast.Expr, at Atomizer, named []string, required func(val map[string]bool) bool) bool {
 	set := map[string]bool{}
@@ -285,8 +321,8 @@ var pureDefMemo = map[types.Object]ast.Expr{}
 
 // PureBoolDef returns the defining expression of e when e names a boolean local variable
 // that is assigned exactly once in its function (closures included), by an expression
-// without calls (len/cap and conversions excepted) whose local operands are themselves
-// never reassigned.  Such a variable is a name for its definition, and conditions
+// whose local operands are themselves never reassigned (calls in it are read as the values
+// they returned at the definition).  Such a variable is a name for its definition, and conditions
 // mentioning it are read as if the definition stood there.  Fields read by the definition
 // are assumed unchanged between the definition and the test.
 func PureBoolDef(e ast.Expr) ast.Expr {
@@ -364,10 +400,8 @@ func PureBoolDef(e ast.Expr) ast.Expr {
 	ast.Inspect(rhs, func(nd ast.Node) bool {
 		switch x := nd.(type) {
 		case *ast.CallExpr:
-			name := CalleeName(pk.TypesInfo, x)
-			if name != "builtin.len" && name != "builtin.cap" && !strings.HasPrefix(name, "conv:") {
-				pure = false
-			}
+			// the variable holds what the calls returned when it was defined; a test of the
+			// variable is a test of those results (as for a definition that is one call)
 		case *ast.FuncLit:
 			pure = false
 		case *ast.UnaryExpr:
